@@ -58,6 +58,7 @@ def plan(tier, seed):
             scs.append(dict(kind='real', file=fi, rel=list(rel)))
         if fi == 0:
             scs += [dict(kind='real', file=fi, rel=['super', d]) for d in ([[2, 1, 1]] if tier == 'quick' else [[2, 1, 1], [1, 1, 2], [1, 2, 1]])]
+    scs += [dict(kind='large')] + [dict(kind='twist', cell=ci, pre=pre) for ci in (0, 1) for pre in (0, 1, 2)]
     return dict(scenarios=scs, exhaustive=True, chunk=4,
                 menus=dict(cells=[c[0] for c in G.CELLS], patterns=G.PATTERN_NAMES, decoys=DECOYS3, real_files=[r[0] for r in REAL[:len(files)]],
                            relations=['shift-and-wrap', 'atom permutation', 'rigid motion of the pattern', 'other numbering of the atom types (pattern / structure)', 'hint forms', 'draw answers', 'supercell'],
@@ -311,9 +312,55 @@ def run_real(sc, ctx, out):
         out['samples'] = [dict(file=name, relation=what, matches=len(base[0]), first_match=list(base[0][0]) if len(base[0]) else None)]
 
 
+TWISTS = [0.055, -0.055, 0.03, -0.03, 0.0009, 180.055, 179.945, -179.97, 0.5, -0.5, 90.0, 37.0]      # degrees about the pattern's own long axis
+WIDE = (['C', 'N', 'O', 'S', 'H'], np.array([(0.0, 0.0, 0.0), (80.0, 0.0, 0.0), (40.0, 30.0, 0.0), (38.0, -10.0, 25.0), (41.0, 1.0, -1.2)]))
+WIDE_CELLS = [np.diag([200.0, 210.0, 190.0]), np.array([[200.0, 0, 0], [30.0, 210.0, 0], [-25.0, 40.0, 190.0]])]
+
+
+def run_scale(sc, ctx, out):
+    ex = explorer(ctx)
+    if sc['kind'] == 'large':
+        # more than 2^15 atoms: the same crystal with the copies stored after the filler / split around it
+        ids = []
+        for order in (2, 0, 1):
+            cell, pos, el, pp, pel, planted = G.large_case(order)
+            res, err = find(mk_atoms(el, pos, cell), mk_atoms(pel, pp + np.array([3.3, -1.2, 0.7]), None), 0.05, ex)
+            out['evals'] += 1
+            if err:
+                out['violations'].append(viol('no-result', 'large-exc:' + exc_sig(err), 'structure of %d atoms (atom order %d): find raised %r' % (len(el), order, err[0]), sc)); return
+            copy_of = {tuple(sorted(t)): i for i, t in enumerate(planted)}
+            ids.append(sorted(copy_of.get(tuple(sorted(int(i) for i in t)), str(tuple(int(i) for i in t))) for t in res[0]))
+        out['compared'] += 2
+        if ids[0] != ids[1] or ids[0] != ids[2]:
+            out['violations'].append(viol('representation-independence', 'large-perm', 'the same 32783-atom crystal stored in three atom orders (copies first / last / split around the filler): copies reported %r vs %r vs %r (copies are numbered 0..4)' % (ids[0], ids[1], ids[2]), sc))
+        out['outcomes']['large: copies %r' % (ids[0],)] = 1; out['nontrivial'] = 1 if ids[0] else 0
+        return
+    # a pattern 80 A long with atoms 30 A off its axis; the pattern is handed over twisted about its own axis by tiny angles
+    pel, pp = WIDE; cell = WIDE_CELLS[sc['cell']]
+    pre = [np.identity(3), sub_poses(ctx['seed'])[4], sub_poses(ctx['seed'])[1]][sc['pre']]
+    s = mk_atoms(pel + ['Kr', 'C'], wrap(np.vstack([(pre @ pp.T).T + np.array([150.0, 170.0, 60.0]), [[5.0, 5.0, 5.0], [9.0, 9.0, 9.0]]]), cell), cell)
+    c = cconst(pp)
+    base, err = find(s, mk_atoms(pel, pp, None), 0.05, ex)
+    out['evals'] += 1
+    if err:
+        out['violations'].append(viol('no-result', 'twist-exc:' + exc_sig(err), 'find raised %r' % (err[0],), sc)); return
+    axis = (pp[1] - pp[0]) / np.linalg.norm(pp[1] - pp[0])
+    for t in TWISTS:
+        Rt = R.from_rotvec(np.radians(t) * axis).as_matrix()
+        for shift in (np.zeros(3), np.array([-7.0, 0.1, 100.0])):
+            rel, err = find(s, mk_atoms(pel, (Rt @ pp.T).T + shift, None), 0.05, ex)
+            out['evals'] += 1
+            if err:
+                out['violations'].append(viol('no-result', 'twist-exc:' + exc_sig(err), 'pattern twisted by %g deg: find raised %r' % (t, err[0]), sc)); continue
+            compare(base, rel, pp, 0.05, c, 'twist: the 80 A pattern handed over rotated by %g deg about its own axis (atoms up to 30 A off the axis)' % t, sc, out)
+    out['outcomes']['twist: base matches %d' % len(base[0])] = 1; out['nontrivial'] = 1 if len(base[0]) else 0
+
+
 def run(sc, ctx):
     out = dict(evals=0, compared=0, violations=[], outcomes={}, hashes={h64(sc)}, nontrivial=0)
-    if sc['kind'] == 'gen':
+    if sc['kind'] in ('large', 'twist'):
+        run_scale(sc, ctx, out)
+    elif sc['kind'] == 'gen':
         run_gen(sc, ctx, out)
     else:
         run_real(sc, ctx, out)
